@@ -204,6 +204,9 @@ def run_mut(k, d, idx, mut):
         if 'could not compile' in o or re.search(r'^error(\[|:)', o, re.M) or 'test result: ok' not in o:
             rec['verdict'] = 'stillborn'; rec['detail'] = o[-600:]
             return rec
+    return survivor_checks(d, rel, rec)
+
+def survivor_checks(d, rel, rec):
     # survivor: harness
     rc, o = sh('cargo build --offline 2>&1 | tail -30', f'{d}/harness', {'CARGO_TARGET_DIR': f'{d}/target-h'}, 1200)
     if rc != 0 or 'could not compile' in o:
@@ -232,7 +235,44 @@ def run_mut(k, d, idx, mut):
     rec['verdict'] = 'undetected'
     return rec
 
+def retest_main(src):
+    want = None
+    if '--idx' in ARGS:
+        want = {int(x) for x in ARGS[ARGS.index('--idx') + 1].split(',')}
+    recs = [json.loads(l) for l in open(src)]
+    recs = [r for r in recs if r['verdict'] == 'undetected' and (want is None or r['idx'] in want)]
+    print(f'[automut] retesting {len(recs)} undetected survivors on {W} workers', flush=True)
+    q = list(recs)
+    qlock = threading.Lock()
+    def worker(k):
+        d = setup_worker(k)
+        while True:
+            with qlock:
+                if not q:
+                    break
+                r = q.pop(0)
+            sh('git checkout -q -- .', f'{d}/repo')
+            pf = f'{d}/retest.diff'
+            open(pf, 'w').write(r['diff'])
+            rc, o = sh(f'git apply {pf}', f'{d}/repo')
+            rec = {'idx': r['idx'], 'file': r['file'], 'line': r['line'], 'op': r['op'], 'diff': r['diff'], 'retest': True}
+            if rc != 0:
+                rec['verdict'] = 'does-not-apply'
+            else:
+                rec = survivor_checks(d, r['file'], rec)
+            with lock:
+                with open(out_path, 'a') as fo:
+                    fo.write(json.dumps(rec) + '\n')
+                print(f"[automut] retest #{rec['idx']} {rec['file']}:{rec['line']} {rec['op']} -> {rec['verdict']} {rec.get('by', '')} {rec.get('key', '')}", flush=True)
+        sh('git checkout -q -- .', f'{d}/repo')
+    ths = [threading.Thread(target=worker, args=(k,)) for k in range(W)]
+    for t in ths: t.start()
+    for t in ths: t.join()
+    print('[automut] retest done', flush=True)
+
 def main():
+    if '--retest' in ARGS:
+        return retest_main(ARGS[ARGS.index('--retest') + 1])
     rng = random.Random(SEED)
     allm = []
     for f in candidate_files():
